@@ -677,8 +677,21 @@ func FetchWithParallelRangeRequests(client *http.Client, rawURL string, cfg *Fet
 		return nil, fmt.Errorf("content too large: %d bytes exceeds max %d", contentLength, cfg.MaxFetchBytes)
 	}
 
+	// A zero or negative chunk size or parallelism is an unset field, not a
+	// request for "no chunks" / "no workers": an unbuffered semaphore would
+	// block every worker forever and a zero chunk size has no chunk count.
+	// Fall back to the documented defaults.
+	chunkSize := cfg.ChunkSizeBytes
+	if chunkSize <= 0 {
+		chunkSize = 8 * 1024 * 1024
+	}
+	maxParallel := cfg.MaxParallelRequests
+	if maxParallel <= 0 {
+		maxParallel = 8
+	}
+
 	// Compute chunks
-	numChunks := int(math.Ceil(float64(contentLength) / float64(cfg.ChunkSizeBytes)))
+	numChunks := int(math.Ceil(float64(contentLength) / float64(chunkSize)))
 	type chunkResult struct {
 		index int
 		data  []byte
@@ -692,7 +705,7 @@ func FetchWithParallelRangeRequests(client *http.Client, rawURL string, cfg *Fet
 	// to that ceiling ensures straggler goroutines never block on send
 	// after the receive loop exits early, so they can finish cleanly.
 	resultCh := make(chan chunkResult, numChunks*2)
-	sem := make(chan struct{}, cfg.MaxParallelRequests)
+	sem := make(chan struct{}, maxParallel)
 
 	// Per-chunk launch timestamps (set when the *initial* attempt starts).
 	// Used to compute elapsed-time-since-launch when deciding whether a
@@ -712,8 +725,8 @@ func FetchWithParallelRangeRequests(client *http.Client, rawURL string, cfg *Fet
 		defer func() { <-sem }()
 
 		start := time.Now()
-		rangeStart := int64(index) * cfg.ChunkSizeBytes
-		rangeEnd := rangeStart + cfg.ChunkSizeBytes - 1
+		rangeStart := int64(index) * chunkSize
+		rangeEnd := rangeStart + chunkSize - 1
 		if rangeEnd >= contentLength {
 			rangeEnd = contentLength - 1
 		}
@@ -728,14 +741,26 @@ func FetchWithParallelRangeRequests(client *http.Client, rawURL string, cfg *Fet
 		}
 		defer resp.Body.Close()
 
-		if resp.StatusCode != http.StatusPartialContent && resp.StatusCode != http.StatusOK {
+		// Only 206 is a chunk. A 200 means the server ignored the Range
+		// header and is sending the whole resource; stitching such bodies
+		// together would yield numChunks copies of it, so refuse it.
+		if resp.StatusCode != http.StatusPartialContent {
 			resultCh <- chunkResult{index: index, err: fmt.Errorf("range request returned %d", resp.StatusCode), hedge: isHedge}
 			return
 		}
 
-		data, err := io.ReadAll(resp.Body)
+		// The chunk must be exactly the requested range: a short or long
+		// body would shift every later chunk in the assembled output. Read
+		// one byte past the range so an over-long body is detected without
+		// buffering it.
+		want := rangeEnd - rangeStart + 1
+		data, err := io.ReadAll(io.LimitReader(resp.Body, want+1))
 		if err != nil {
 			resultCh <- chunkResult{index: index, err: err, hedge: isHedge}
+			return
+		}
+		if int64(len(data)) != want {
+			resultCh <- chunkResult{index: index, err: fmt.Errorf("range request for bytes %d-%d returned a body of the wrong length (want %d bytes)", rangeStart, rangeEnd, want), hedge: isHedge}
 			return
 		}
 
@@ -800,7 +825,11 @@ func FetchWithParallelRangeRequests(client *http.Client, rawURL string, cfg *Fet
 	// Receive loop. `expected` grows as we launch hedges; we exit when
 	// we have a successful result for every chunk OR when we've drained
 	// every launched goroutine and some chunks are still missing.
-	for chunksRemaining > 0 {
+	// `expected` counts the attempts that have been launched and not yet
+	// received, so it has to be part of the loop condition itself: once it
+	// is zero nobody will ever send again, whatever the last result was
+	// (a failed chunk followed by successes used to wait here forever).
+	for chunksRemaining > 0 && expected > 0 {
 		cr := <-resultCh
 		expected--
 		if cr.err != nil {
@@ -814,11 +843,6 @@ func FetchWithParallelRangeRequests(client *http.Client, rawURL string, cfg *Fet
 			}
 			if firstErr == nil {
 				firstErr = cr.err
-			}
-			// If no more attempts are in flight for this chunk, account
-			// for the missing result so the loop can exit deterministically.
-			if expected <= 0 && chunksRemaining > 0 {
-				break
 			}
 			continue
 		}
